@@ -183,7 +183,10 @@ R_CONDS = [T.NULL, L("ValueDataType", "equal_to", int), L("Value", "in_range", 0
            ("and", L("Value", "greater_than", 0), ("or", L("Value", "truthy"), L("ValueLength", "less_than", 2))),
            L("Value", "keys_contain_any_of", "a", "b"),
            L("ValueLength", "in_range", lower=0, upper=("$path", P((("prim", "b"),), "length"))),     # literal before path
-           L("Value", "in_", [1, ("$path", P((("prim", "b"),)))])]
+           L("Value", "in_", [1, ("$path", P((("prim", "b"),)))]),
+           # literal mapping arguments with 'path' among several keys (escaped in the spec): first, last, in a list
+           L("Value", "equal_to", {"name": "x", "path": ["b"]}), L("Value", "in_", [{"path": ["b"], "k": 1}, 2]),
+           L("Value", "items_contain", a={"n": 1, "Path.first": ["b"], "z": 2})]
 R_CASTS = [(), (("str", "bool"),), (("str", "int"),)]
 DOC_FORMS = [
     None, "a text\n", ["line 1 ", " line 2\n"], {"description": "d\n"}, {"description": ["d1", " d2 "]},
